@@ -161,6 +161,12 @@ static int ref_compare (const ProgSpec *ps, const RunCfg *rc, const Arena *run, 
           const ArenaArr *a = &pristine->a[in->s[0]];
           int ok = 0;
           int32_t p1 = (int32_t) sv[1], p2 = (int32_t) sv[2];
+          if (mult > 1 && ps_plain_ldst (op)) {
+            /* a prefixed loadX reads one element of the array's own (2x / 4x) size */
+            uint64_t x = 0;
+            memcpy (&x, a->base + (long) r * a->stride + i * ps->vars[in->s[0]].size, (size_t) ps->vars[in->s[0]].size);
+            dv[0] = x; ok = 1;
+          } else
           dv[0] = ref_load (op->name, a->base + (long) r * a->stride, i, p1, p2, &ok);
           if (!ok) { snprintf (msg, max, "reference has no load semantics for %s", op->name); return 1; }
         } else if (op->flags & VOP_ACC) {
